@@ -8,7 +8,7 @@ import ast
 import re
 
 from ..astutil import (call_name, calls_in, walk_no_nested, params_of, kw,
-                       is_const, single_defs, subst)
+                       is_const, single_defs, subst, expand_locals)
 from ..cfg import cfg_of, expr_owner_node, facts_at, decompose, fact_key
 from ..loader import Program, AnalysisError, unparse
 from ..report import Check
@@ -1607,6 +1607,213 @@ def _assert_implied(test, facts, f, m, ab):
     return False
 
 
+# --------------------------------------------------------------------- R8
+LEXEME_PREDICATES = {'is_piped_symbol': '|', 'is_string_const': '"'}
+PROBES = ['\n', '\r', '\t', ' ', 'a', 'Z', '0', '_', '-', '"', '|', '\\',
+          ';', '(', ')', '\xe9']
+
+
+def _class_accepts(item, ch, dotall):
+    """Does the one-character regex item accept ``ch``?  None: unknown."""
+    import re._constants as rc
+    op, av = item
+    if op is rc.ANY:
+        return ch != '\n' or dotall
+    if op is rc.LITERAL:
+        return ord(ch) == av
+    if op is rc.NOT_LITERAL:
+        return ord(ch) != av
+    if op is rc.IN:
+        neg = False
+        hit = False
+        for (o2, a2) in av:
+            if o2 is rc.NEGATE:
+                neg = True
+            elif o2 is rc.LITERAL:
+                hit = hit or ord(ch) == a2
+            elif o2 is rc.RANGE:
+                hit = hit or a2[0] <= ord(ch) <= a2[1]
+            elif o2 is rc.CATEGORY:
+                name = str(a2)
+                base = {'CATEGORY_SPACE': ch.isspace(),
+                        'CATEGORY_NOT_SPACE': not ch.isspace(),
+                        'CATEGORY_DIGIT': ch.isdigit(),
+                        'CATEGORY_NOT_DIGIT': not ch.isdigit(),
+                        'CATEGORY_WORD': ch.isalnum() or ch == '_',
+                        'CATEGORY_NOT_WORD': not (ch.isalnum() or ch == '_')
+                        }.get(name)
+                if base is None:
+                    return None
+                hit = hit or base
+            else:
+                return None
+        return hit != neg
+    return None
+
+
+def _regex_delimited(pattern, flags_dotall, q, fullmatch, want_pairs):
+    """Judge a pattern meant to say "starts with q, ends with q".
+    -> (ok, reason) ; raises AnalysisError for shapes not understood."""
+    import re._parser as rp
+    import re._constants as rc
+    try:
+        tree = rp.parse(pattern)
+    except Exception as e:
+        raise AnalysisError(f'pattern {pattern!r} does not parse: {e}')
+    dotall = flags_dotall or bool(tree.state.flags & 16)
+    items = list(tree)
+    while items and items[0][0] is rc.AT and str(items[0][1]) in (
+            'AT_BEGINNING', 'AT_BEGINNING_STRING'):
+        items.pop(0)
+    anchored_end = fullmatch
+    while items and items[-1][0] is rc.AT and str(items[-1][1]) in (
+            'AT_END', 'AT_END_STRING'):
+        items.pop()
+        anchored_end = True
+    if len(items) < 2 or items[0] != (rc.LITERAL, ord(q)) or \
+            items[-1] != (rc.LITERAL, ord(q)):
+        raise AnalysisError(
+            f'pattern {pattern!r} is not <{q}> ... <{q}>')
+    if not anchored_end:
+        return False, ('the pattern is not anchored at the end: any text '
+                       f'that merely starts with {q}...{q} is accepted')
+    body = items[1:-1]
+    if not body:
+        return False, f'the pattern accepts only the empty lexeme {q}{q}'
+    if len(body) != 1 or body[0][0] not in (rc.MAX_REPEAT, rc.MIN_REPEAT):
+        raise AnalysisError(f'body of pattern {pattern!r} is not one '
+                            'repetition')
+    lo, hi, sub = body[0][1]
+    if lo != 0 or hi != rc.MAXREPEAT:
+        return False, (f'the body must occur {lo}..{hi} times: lexemes of '
+                       'other lengths are not recognised')
+    sub = list(sub)
+    # (?:X|qq)* for strings
+    alts = None
+    if len(sub) == 1 and sub[0][0] is rc.SUBPATTERN:
+        sub = list(sub[0][1][-1])
+    if len(sub) == 1 and sub[0][0] is rc.BRANCH:
+        alts = [list(a) for a in sub[0][1][1]]
+    elif len(sub) == 1:
+        alts = [sub]
+    else:
+        raise AnalysisError(f'body of pattern {pattern!r} not understood')
+    singles = [a[0] for a in alts if len(a) == 1]
+    pairs = [a for a in alts if len(a) == 2 and all(
+        x == (rc.LITERAL, ord(q)) for x in a)]
+    if len(singles) + len(pairs) != len(alts):
+        raise AnalysisError(f'body of pattern {pattern!r} not understood')
+    rejected = []
+    for ch in PROBES:
+        if ch == q:
+            continue
+        acc = [_class_accepts(it, ch, dotall) for it in singles]
+        if any(a is None for a in acc):
+            raise AnalysisError(f'character class in {pattern!r} not '
+                                'understood')
+        if not any(acc):
+            rejected.append(ch)
+    if rejected:
+        return False, ('the body rejects the characters '
+                       f'{rejected}: a lexeme containing one of them '
+                       '(e.g. a quoted symbol or string spanning lines) is '
+                       'not recognised')
+    if want_pairs:
+        q_ok = any(_class_accepts(it, q, dotall) for it in singles) or pairs
+        if not q_ok:
+            return False, (f'the body rejects {q}: a string literal with an '
+                           f'escaped quote ({q}{q}) is not recognised as a '
+                           'string constant')
+    return True, ''
+
+
+def rule_r8(chk, prog):
+    chk.rule('C15.R8', 'the lexeme-class predicates mean what the text '
+             'abstraction assumes: is_piped_symbol / is_string_const hold '
+             'for every leaf that starts and ends with the delimiter '
+             '(multi-line quoted symbols, strings with "" included)')
+    m = prog.mod('smtlib')
+    for pname, q in LEXEME_PREDICATES.items():
+        f = m.func(pname)
+        where = f'smtlib.{pname}'
+        np_ = params_of(f)[0]
+        rets = [r for r in walk_no_nested(f) if isinstance(r, ast.Return)]
+        if len(rets) != 1 or rets[0].value is None:
+            raise AnalysisError(f'C15.R8: {where} is not a single return')
+        v = expand_locals(f, rets[0].value)
+        conj = v.values if isinstance(v, ast.BoolOp) and isinstance(
+            v.op, ast.And) else [v]
+        texts = (np_, f'{np_}.data', f'str({np_})')
+        first = last = leaf = False
+        verdict = None
+        for c in conj:
+            t = unparse(c)
+            if t == f'{np_}.is_leaf()' or t == \
+                    f'isinstance({np_}.data, str)':
+                leaf = True
+                continue
+            # first / last character tests
+            for base in texts:
+                if t in (f"{base}[0] == {q!r}", f"{base}.startswith({q!r})",
+                         f"{q!r} == {base}[0]"):
+                    first = True
+                if t in (f"{base}[-1] == {q!r}", f"{base}.endswith({q!r})",
+                         f"{q!r} == {base}[-1]"):
+                    last = True
+            # regular expression
+            call = None
+            if isinstance(c, ast.Compare) and len(c.ops) == 1 and isinstance(
+                    c.ops[0], (ast.IsNot, ast.NotEq)) and isinstance(
+                        c.comparators[0], ast.Constant) and \
+                    c.comparators[0].value is None:
+                call = c.left
+            elif isinstance(c, ast.Call) and call_name(c) == 'bool' and \
+                    c.args:
+                call = c.args[0]
+            elif isinstance(c, ast.Call):
+                call = c
+            if isinstance(call, ast.Call) and (call_name(call) or '') in (
+                    're.match', 're.fullmatch', 're.search'):
+                if len(call.args) < 2 or not (isinstance(
+                        call.args[0], ast.Constant) and isinstance(
+                            call.args[0].value, str)):
+                    raise AnalysisError(
+                        f'C15.R8: {m.loc(call)}: pattern is not a literal')
+                if unparse(call.args[1]) not in texts:
+                    raise AnalysisError(
+                        f'C15.R8: {m.loc(call)}: matched text is '
+                        f'{unparse(call.args[1])}')
+                fl = call.args[2] if len(call.args) > 2 else kw(call,
+                                                                'flags')
+                dotall = fl is not None and ('DOTALL' in unparse(fl)
+                                             or unparse(fl).endswith('.S'))
+                pat = call.args[0].value
+                if call_name(call) == 're.search' and not pat.startswith(
+                        ('^', '\\A')):
+                    verdict = (False, 'the pattern is searched, not '
+                               'matched at the start', call)
+                else:
+                    ok, why = _regex_delimited(
+                        pat, dotall, q, call_name(call) == 're.fullmatch',
+                        q == '"')
+                    verdict = (ok, why, call)
+        if verdict is not None:
+            chk.check('C15.R8', where, verdict[2], verdict[0] and leaf,
+                      f'{pname} decides with the pattern '
+                      f'{verdict[2].args[0].value!r}: {verdict[1]}; callers '
+                      'then treat such a leaf as a simple symbol (cut it, '
+                      'prefix it) and propose leaves that are not single '
+                      'tokens', loc=m.loc(verdict[2]), nontrivial=True)
+        elif first and last and leaf:
+            chk.instance('C15.R8', where, f'leaf, first and last character '
+                         f'are {q!r}', True, 'first/last-character test',
+                         nontrivial=True, loc=m.loc(f))
+        else:
+            raise AnalysisError(
+                f'C15.R8: {where}: body "{unparse(v)[:80]}" is neither the '
+                'first/last-character test nor a regular expression')
+
+
 def run(tier):
     prog = Program()
     chk = Check(
@@ -1635,6 +1842,7 @@ def run(tier):
     chk.guard(rule_r3, chk, prog, ab)
     chk.guard(rule_r4, chk, prog, ab)
     chk.guard(rule_r5, chk, prog, ab)
+    chk.guard(rule_r8, chk, prog)
     # declarations are placed before their first use: the prefix-insertion
     # rule of C11.R5
     from . import c11
